@@ -9,7 +9,7 @@ import "encoding/xml"
 type SASLAuth struct {
 	XMLName   xml.Name `xml:"urn:ietf:params:xml:ns:xmpp-sasl auth"`
 	Mechanism string   `xml:"mechanism,attr"`
-	Value     string   `xml:",innerxml"`
+	Value     string   `xml:",chardata"`
 }
 
 // ============================================================================
